@@ -68,7 +68,7 @@ IsAscii(c) == \A i \in DOMAIN c : c[i] < 128
 RECURSIVE Ends(_, _, _), StarEnds(_, _, _)
 Ends(re, s, i) ==
   CASE re.t = "chr"  -> IF i < Len(s) /\ s[i + 1] = re.c THEN {i + 1} ELSE {}
-    [] re.t = "set"  -> IF i < Len(s) /\ ((s[i + 1] \in re.cs) # re.neg) THEN {i + 1} ELSE {}
+    [] re.t = "set"  -> IF i < Len(s) /\ ((\E j \in DOMAIN re.cs : re.cs[j] = s[i + 1]) # re.neg) THEN {i + 1} ELSE {}   \* cs: a sequence
     [] re.t = "any"  -> IF i < Len(s) /\ s[i + 1] # 10 THEN {i + 1} ELSE {}
     [] re.t = "cat"  -> UNION {Ends(re.b, s, j) : j \in Ends(re.a, s, i)}
     [] re.t = "alt"  -> Ends(re.a, s, i) \cup Ends(re.b, s, i)
